@@ -407,3 +407,60 @@ def set_list_index(idx: int, n: int, x: int, y: int) -> int:
     if other[0] != "ok" or not same(other[1], y if idx == 0 else x):
         return 0
     return 2
+
+
+@harness("C04", lemma="domain-history", cubes={"first_has": [False, True]}, example=dict(first_has=False, v=2, m=2, k=7), timeout=120,
+         bounds="ONE Option object whose domain is an evaluatable with its own default (Option('ALLOWED', default=[1, 2])), evaluated "
+                "twice: with and without ALLOWED supplied (either order); value and allowed element unbounded ints",
+         what="every evaluation checks the value against the domain evaluated under ITS OWN options, whatever the same Option object "
+              "evaluated before")
+def domain_history(first_has: bool, v: int, m: int, k: int) -> int:
+    opt = Option("K", domain=Option("ALLOWED", default=[1, 2]))
+    o_with = {"K": v, "ALLOWED": [m]}
+    o_without = {"K": v}
+    order = (o_with, o_without) if first_has else (o_without, o_with)
+    for o in order:
+        got = outcome(lambda: opt(o))
+        inside = (v == m) if "ALLOWED" in o else (v == 1 or v == 2)
+        note("options", o, "got", got, "inside its domain", inside)
+        if (got[0] == "ok") != inside:
+            return 0
+        if got[0] == "ok" and not same(got[1], v):
+            return 0
+    return 2
+
+
+@Option.namespace
+class LOGGING:
+    LEVEL = Option.auto("INFO", doc="level")
+    RETRIES = Option.auto(3)
+
+
+@Option.namespace
+class APP:
+    LOG = LOGGING
+    OTHER = 1
+
+
+@harness("C04", lemma="namespace-reuse", cubes={"first": [0, 1]}, example=dict(first=0, kind=0, n=5, b=False, s="", pv=True, w=9),
+         pre=["0 <= kind <= 3", "len(s) <= 1"], timeout=120,
+         bounds="a namespace with Option.auto members used stand-alone AND embedded in another namespace; both accessed in one process, "
+                "either first; values of any scalar kind (falsy ones included) or absent",
+         what="LOGGING.X and APP.LOGGING.X each behave like their own fully-qualified Option, whichever was accessed first")
+def namespace_reuse(first: int, kind: int, n: int, b: bool, s: str, pv: bool, w: int) -> int:
+    if not plain(s):
+        return 1
+    v = payload(kind, n, b, s)
+    o = {"LOGGING": {"RETRIES": w}}
+    if pv:
+        o["APP"] = {"LOGGING": {"RETRIES": v}}
+    pairs = [(lambda: LOGGING.RETRIES, Option("LOGGING.RETRIES", default=3)), (lambda: APP.LOG.RETRIES, Option("APP.LOGGING.RETRIES", default=3))]
+    if first == 1:
+        pairs.reverse()
+    for member, plain_opt in pairs:
+        g1 = outcome(lambda: member()(o))
+        g2 = outcome(lambda: plain_opt(o))
+        note("member", plain_opt.key, "namespace", g1, "plain", g2)
+        if g1[0] != g2[0] or (g1[0] == "ok" and not same(g1[1], g2[1])):
+            return 0
+    return 2
